@@ -51,6 +51,102 @@ fn gen_hist(rng: &mut Rng, len: u64, nops: usize, unit: u64) -> Vec<LOp> {
     ops
 }
 
+/// The plaintext a history is judged against: in memory, or - for plaintexts beyond 2^32 bytes - its first block,
+/// its last blocks and zeros in between (what the workload wrote), never materialised
+enum Plain<'a> {
+    Mem(&'a [u8]),
+    Huge { len: u64, head: Vec<u8>, tail: Vec<u8> },
+}
+
+impl Plain<'_> {
+    fn len(&self) -> u64 {
+        match self {
+            Plain::Mem(p) => p.len() as u64,
+            Plain::Huge { len, .. } => *len,
+        }
+    }
+    /// up to n bytes at pos
+    fn at(&self, pos: u64, n: usize) -> Vec<u8> {
+        let len = self.len();
+        let pos = pos.min(len);
+        let n = (n as u64).min(len - pos) as usize;
+        match self {
+            Plain::Mem(p) => p[pos as usize..pos as usize + n].to_vec(),
+            Plain::Huge { len, head, tail } => {
+                let tail_at = len - tail.len() as u64;
+                (pos..pos + n as u64).map(|q| if q < head.len() as u64 { head[q as usize] } else if q >= tail_at { tail[(q - tail_at) as usize] } else { 0 }).collect()
+            }
+        }
+    }
+}
+
+/// histories for plaintexts beyond 2^32 bytes: targets and distances around 2^31, 2^32, block edges, the ends
+fn gen_hist_huge(rng: &mut Rng, len: u64, nops: usize, block: u64) -> Vec<LOp> {
+    let mut ops = Vec::new();
+    let mut cur: u64 = 0;
+    let near = |rng: &mut Rng, x: u64| -> u64 { (x + rng.below(5)).saturating_sub(2).min(len) };
+    for _ in 0..nops {
+        let t = match rng.below(12) {
+            0 => 0,
+            1 => len,
+            2 => len.saturating_sub(rng.below(100)),
+            3 => near(rng, 1 << 32),
+            4 => near(rng, 1 << 31),
+            5 => {
+                let k = rng.below(len / block + 1);
+                near(rng, k * block)
+            }
+            // a RELATIVE jump of (almost) 2^32 / 2^31, forwards from inside an early block or backwards from inside a
+            // late one: the cursor is first put where the jump fits and a few bytes are read there
+            6 | 7 => {
+                let inside = rng.range(1, block);
+                let d = *rng.pick(&[(1u64 << 32) - 1, 1 << 32, (1 << 32) + 1, (1 << 32) - block / 4, (1 << 32) - block + 1, (1 << 32) - inside, 1 << 31, (1 << 31) - 1, (1 << 31) + 1]);
+                if d < len {
+                    let fwd = rng.chance(1, 2);
+                    let room = len - d;
+                    let from = if fwd { rng.range(0, room) } else { len - rng.range(0, room) };
+                    ops.push(LOp::SeekStart { p: from });
+                    let n = *rng.pick(&[0usize, 1, 7, 100]);
+                    ops.push(LOp::Read { n });
+                    let at = (from + n as u64).min(len);
+                    let t = if fwd { (at + d).min(len) } else { at.saturating_sub(d) };
+                    ops.push(LOp::SeekCurTo { p: t });
+                    ops.push(LOp::Read { n: 13 });
+                    cur = (t + 13).min(len);
+                    continue;
+                }
+                cur
+            }
+            8 => rng.range(0, block),
+            _ => rng.range(0, len),
+        };
+        match rng.below(6) {
+            0 | 1 => ops.push(LOp::SeekStart { p: t }),
+            2 | 3 => ops.push(LOp::SeekCurTo { p: t }),
+            4 => ops.push(LOp::SeekEndTo { p: t }),
+            _ => ops.push(LOp::Pos),
+        }
+        if !matches!(ops.last(), Some(LOp::Pos)) {
+            cur = t;
+        }
+        let n = *rng.pick(&[0usize, 1, 5, 13, 64, 300]);
+        ops.push(LOp::Read { n });
+        cur = (cur + n as u64).min(len);
+        if rng.chance(1, 4) {
+            ops.push(LOp::SeekCur0);
+        }
+    }
+    ops
+}
+
+/// runs whose compression-layer plaintext is longer than 2^32 bytes
+fn huge_runs(tier: Tier) -> u64 {
+    match tier {
+        Tier::Quick => 2,
+        Tier::Thorough => 8,
+    }
+}
+
 impl Prop for C11 {
     fn id(&self) -> &'static str {
         "C11"
@@ -59,20 +155,35 @@ impl Prop for C11 {
         "exploration"
     }
     fn rule(&self) -> String {
-        "run = a finalized archive written by the library, whose layer plaintexts are obtained from the independent format model (decrypt / decompress by refmla); a layer reader stack is built exactly as `mlar info` builds it (header parsed, raw layer pinned after the header, then 0, 1 or 2 of the enabled layers) over the simulated source, and a seeded history of 30 operations {seek from start / current / end to any target in [0, len] (biased to 0, len, len-k, chunk and block edges +-2), stream_position, read of 0/1/unit/unit+1/random bytes} is played against a std::io::Cursor over the same plaintext: identical positions, identical bytes, a read returns >= 1 byte unless asked for 0 or at the end. The first 1800 runs sweep the content length 0..299 on s0 (all four layer sets) and s1 (E, CE) so that every residue of the plaintext length modulo CHUNK (and lengths below one tag, exact multiples) and modulo BLOCK occurs. distinct_nontrivial = distinct (variant, layers, depth, length class vs CHUNK, vs BLOCK, op kinds seen) signatures.".into()
+        "run = a finalized archive written by the library, whose layer plaintexts are obtained from the independent format model (decrypt / decompress by refmla); a layer reader stack is built exactly as `mlar info` builds it (header parsed, raw layer pinned after the header, then 0, 1 or 2 of the enabled layers) over the simulated source, and a seeded history of 30 operations {seek from start / current / end to any target in [0, len] (biased to 0, len, len-k, chunk and block edges +-2), stream_position, read of 0/1/unit/unit+1/random bytes} is played against a std::io::Cursor over the same plaintext: identical positions, identical bytes, a read returns >= 1 byte unless asked for 0 or at the end. The 2 (thorough: 8) runs after the sweep stream a file of 2^32 + a few MiB zero bytes through the compression layer (alone / over encryption, production constants) and play 40-step histories with targets and relative distances around 2^31, 2^32, block edges and both ends against a model that holds the first and last blocks (decoded by the format model) and zeros in between. The first 1800 runs sweep the content length 0..299 on s0 (all four layer sets) and s1 (E, CE) so that every residue of the plaintext length modulo CHUNK (and lengths below one tag, exact multiples) and modulo BLOCK occurs. distinct_nontrivial = distinct (variant, layers, depth, length class vs CHUNK, vs BLOCK, op kinds seen) signatures.".into()
     }
     fn assumptions(&self) -> Vec<String> {
         vec!["seek targets are confined to [0, len] as the property states; a read may return fewer bytes than asked".into()]
     }
     fn runs(&self, tier: Tier) -> u64 {
         match tier {
-            Tier::Quick => SYS_S0 + SYS_S1 + 6000,
-            Tier::Thorough => SYS_S0 + SYS_S1 + 200_000,
+            Tier::Quick => SYS_S0 + SYS_S1 + 6000 + huge_runs(tier),
+            Tier::Thorough => SYS_S0 + SYS_S1 + 200_000 + huge_runs(tier),
         }
     }
     fn make(&self, seed: u64, run: u64, tier: Tier) -> Case {
         let mut rng = Rng::derive(seed, "C11", run, "gen");
         let mut case;
+        if run >= SYS_S0 + SYS_S1 && run < SYS_S0 + SYS_S1 + huge_runs(tier) {
+            // one file of 2^32 + a few MiB zero bytes streamed through the compression layer (alone, or over encryption)
+            let k = run - SYS_S0 - SYS_S1;
+            let layers = if k % 2 == 0 { L_COMP } else { L_COMP | L_ENC };
+            let cfg = ArcCfg { variant: "prodv".into(), layers, level: (k % 2) as u32, recipients: usize::from(layers & 1 != 0), reader: 0, rng_seed: run + 11, key_seed: 5 };
+            let n = (1usize << 32) + rng.range(1, 9 << 20) as usize;
+            let ops = vec![WOp::Start { f: 0, name: Name::lit("zeros") }, WOp::Append { f: 0, data: Data::Zeros { n }, src: Src { sched: Sched::Full, short_by: 0, extra: 0, stream: true } }, WOp::End { f: 0 }, WOp::Add { name: Name::lit("tail"), data: Data::Text { n: 1000, seed: 4 }, src: Src::exact() }, WOp::Finalize];
+            let mut case = Case::new("C11", cfg, ops);
+            case.params.insert("huge".into(), 1);
+            case.params.insert("depth".into(), if layers & L_ENC != 0 { 2 } else { 1 });
+            // the history is explicit from the start (the plaintext length is known from the stream-length model)
+            let plain_len = stream_len(&case.ops) as u64;
+            case.lops = gen_hist_huge(&mut rng, plain_len, 40, consts_of("prodv").block);
+            return case;
+        }
         if run < SYS_S0 + SYS_S1 {
             let (variant, layers, len) = if run < SYS_S0 { ("s0", (run % 4) as u8, (run / 4) as usize) } else { ("s1", if (run - SYS_S0) % 2 == 0 { 1u8 } else { 3u8 }, ((run - SYS_S0) / 2) as usize) };
             let cfg = ArcCfg { variant: variant.into(), layers, level: (run % 12) as u32, recipients: usize::from(layers & 1 != 0), reader: 0, rng_seed: run + 11, key_seed: 5 };
@@ -107,6 +218,31 @@ impl Prop for C11 {
         case.params.insert("hist_seed".into(), (rng.u64() >> 1) as i64);
         case
     }
+    fn shrink(&self, case: &Case) -> Vec<Case> {
+        if case.param("huge", 0) != 1 {
+            return crate::shrink::generic(case);
+        }
+        // every evaluation streams 4 GiB: only the history is shortened (halves, then single steps)
+        let base = case.clone();
+        let mut out = Vec::new();
+        let n = base.lops.len();
+        if n > 1 {
+            let mut c = base.clone();
+            c.lops.truncate(n / 2);
+            out.push(c);
+            let mut c = base.clone();
+            c.lops.drain(..n / 2);
+            out.push(c);
+        }
+        if n <= 8 {
+            for i in 0..n {
+                let mut c = base.clone();
+                c.lops.remove(i);
+                out.push(c);
+            }
+        }
+        out
+    }
     fn exec(&self, case: &Case, ctx: &mut Ctx) -> Vec<Violation> {
         let mut v = Vec::new();
         let s = sut(&case.cfg.variant);
@@ -115,30 +251,80 @@ impl Prop for C11 {
         let sink = SimSink::new(&Sched::Full);
         let w = s.write(&case.cfg, &case.ops, sink.clone());
         if w.panic.is_some() || w.from_config_err.is_some() || w.results.iter().any(Result::is_err) {
-            v.push(Violation::new("workload-write-failed", "write", format!("{:?} {:?}", w.panic, w.results.iter().find(|r| r.is_err()))));
+            v.push(Violation::new("workload-write-failed", "write", format!("writing the workload failed: panic {:?}, from_config {:?}, first failed call {:?}", w.panic, w.from_config_err, w.results.iter().find(|r| r.is_err()))));
             return v;
         }
         let image = sink.data();
-        let lay = match layout_of(&image, &case.cfg, chunk, block) {
-            Ok(l) => l,
-            Err(e) => {
-                v.push(Violation::new("model-cannot-decode", "decode", format!("format model rejects the archive: {e}")));
-                return v;
+        let depth = case.param("depth", 0) as usize;
+        let huge = case.param("huge", 0) == 1;
+        let lay;
+        let (plain, top): (Plain, &str) = if huge {
+            // the format model decodes the first and the last two blocks only
+            let decode = || -> Result<Plain<'static>, String> {
+                let header = crate::refmla::parse_header(&image)?;
+                let body = &image[header.len..];
+                let comp: Vec<u8> = match &header.enc {
+                    Some(e) => {
+                        let key = crate::refmla::unwrap_key(e, &key_bytes(case.cfg.key_seed, case.cfg.reader)).ok_or("format model cannot unwrap the key")?;
+                        let d = crate::refmla::decrypt_stream(&key, &e.nonce, body, chunk);
+                        if d.verified_chunks != d.total_chunks {
+                            return Err("format model: a chunk does not authenticate".into());
+                        }
+                        d.plain
+                    }
+                    None => body.to_vec(),
+                };
+                let cl = crate::refmla::comp_layout(&comp, block)?;
+                let nb = cl.blocks.len();
+                if nb < 4 {
+                    return Err(format!("only {nb} blocks"));
+                }
+                let len = (nb as u64 - 1) * block as u64 + u64::from(cl.last_block_size);
+                let head = crate::refmla::decompress_block(&comp, &cl, 0)?;
+                let mut tail = crate::refmla::decompress_block(&comp, &cl, nb - 2)?;
+                tail.extend(crate::refmla::decompress_block(&comp, &cl, nb - 1)?);
+                Ok(Plain::Huge { len, head, tail })
+            };
+            match decode() {
+                Ok(p) => (p, if case.cfg.enc() { "compress-over-encrypt" } else { "compress" }),
+                Err(e) => {
+                    v.push(Violation::new("model-cannot-decode", "decode", format!("format model rejects the archive: {e}")));
+                    return v;
+                }
+            }
+        } else {
+            lay = match layout_of(&image, &case.cfg, chunk, block) {
+                Ok(l) => l,
+                Err(e) => {
+                    v.push(Violation::new("model-cannot-decode", "decode", format!("format model rejects the archive: {e}")));
+                    return v;
+                }
+            };
+            let hlen = lay.dec.header.len;
+            // plaintext of the stack at this depth
+            match (depth, case.cfg.enc(), case.cfg.comp()) {
+                (0, _, _) => (Plain::Mem(&image[hlen..]), "raw"),
+                (1, true, _) => (Plain::Mem(&lay.dec.enc_plain), "encrypt"),
+                (1, false, true) => (Plain::Mem(&lay.dec.stream), "compress"),
+                (2, true, true) => (Plain::Mem(&lay.dec.stream), "compress-over-encrypt"),
+                _ => (Plain::Mem(&image[hlen..]), "raw"),
             }
         };
-        let depth = case.param("depth", 0) as usize;
-        let hlen = lay.dec.header.len;
-        // plaintext of the stack at this depth
-        let (plain, top): (&[u8], &str) = match (depth, case.cfg.enc(), case.cfg.comp()) {
-            (0, _, _) => (&image[hlen..], "raw"),
-            (1, true, _) => (&lay.dec.enc_plain, "encrypt"),
-            (1, false, true) => (&lay.dec.stream, "compress"),
-            (2, true, true) => (&lay.dec.stream, "compress-over-encrypt"),
-            _ => (&image[hlen..], "raw"),
-        };
-        let len = plain.len() as u64;
+        let len = plain.len();
         let unit = if top == "raw" { 16 } else if top == "encrypt" { chunk as u64 } else { block as u64 };
-        let lops = if case.lops.is_empty() { gen_hist(&mut Rng::new(case.param("hist_seed", 1) as u64), len, 30, unit) } else { case.lops.clone() };
+        if huge {
+            crate::seams::fired("plaintext_beyond_2_pow_32");
+            if case.faults.is_empty() && len != stream_len(&case.ops) as u64 {
+                // harness self-check: the explicit history was generated for the modelled length
+                ctx.probe("huge-stream-length-model-mismatch (run skipped)");
+                return v;
+            }
+        }
+        let lops = if !case.lops.is_empty() {
+            case.lops.clone()
+        } else {
+            gen_hist(&mut Rng::new(case.param("hist_seed", 1) as u64), len, 30, unit)
+        };
         let rcfg = ReadCfg::for_cfg(&case.cfg);
         let out = s.layers(Rc::new(image.clone()), depth, &rcfg, len, &lops);
         let cls = top.to_string();
@@ -199,14 +385,14 @@ impl Prop for C11 {
                 }
                 (LOp::Read { n }, LRes::Bytes(b)) => {
                     kinds.insert("read");
-                    let p = pos as usize;
-                    let want_max = (*n).min(plain.len().saturating_sub(p));
-                    if b.len() > want_max || plain[p.min(plain.len())..p.min(plain.len()) + b.len().min(want_max)] != b[..b.len().min(want_max)] {
+                    let want = plain.at(pos, *n);
+                    let want_max = want.len();
+                    if b.len() > want_max || want[..b.len().min(want_max)] != b[..b.len().min(want_max)] {
                         v.push(Violation::new("layer-wrong-bytes", cls.clone(), format!("{what}: {} bytes returned, they differ from the plaintext at that position (or exceed it)", b.len())));
                         break;
                     }
                     if b.is_empty() && want_max > 0 {
-                        v.push(Violation::new("layer-early-eof", cls.clone(), format!("{what}: read of {n} returned 0 bytes although {} remain", plain.len() - p)));
+                        v.push(Violation::new("layer-early-eof", cls.clone(), format!("{what}: read of {n} returned 0 bytes although {} remain", plain.len() - pos)));
                         break;
                     }
                     pos += b.len() as u64;
